@@ -5,6 +5,7 @@ import exprgen as X
 RULE = ("every depth-1 tree over the 18 operators x the 12 literals of the property text, each in three forms (all literals / "
         "all columns holding the same values / mixed), depth-2 trees (thorough: all unary-over-binary and a sample of "
         "binary-over-binary), random trees to depth 5; non-trivial = at least one operator; distinct = distinct commands")
+RULE = RULE + ('  Also conditions of UPDATE / DELETE / SELECT given as a chain of restrictions (.with(a).with(b)) whose first member is true without being 1.')
 ASSUMPTIONS = ["Row::new via the make_row hook builds the same Row the query engine builds"]
 
 
@@ -82,6 +83,12 @@ def gen_cases(rng, tier, info):
             rows.append([(n, rng.choice([None, 0, 1, 2, 5, -3, "a", "b"])) for n in layout])
         lcmds.append("(x_expr_eval_rows %s (%s))" % (X.enc_expr(e), " ".join(X.enc_row(r) for r in rows)))
     cases += [Case("layouts-%d" % i, lcmds[i:i + 30]) for i in range(0, len(lcmds), 30)]
+    # the documented truthiness where it is used: conditions of SELECT / UPDATE / DELETE, also given as a chain of
+    # restrictions (each one is a condition in its own right: a value that is true without being 1 stays true)
+    import pkggen as G
+    for name, h in G.scenario_histories(rng):
+        if name.startswith("chained-with"):
+            cases.append(Case("scn-" + name, h.cmds, ("pkg",)))
     info.update({"trees": len(trees), "depth1_trees": depth1, "random_trees": n_rand, "commands": len(cmds),
                  "exhaustive": True, "exhaustive_note": "depth-1 trees over all 18 operators x 12 literals are complete"})
     return cases
@@ -107,6 +114,10 @@ def sx_to_expr(sx):
 def oracle(ctx):
     bad = []
     for c, outs in zip(ctx.cases, ctx.impl_out):
+        if "pkg" in c.tags:
+            import pkggen as G
+            bad.extend(G.walk(c.cmds, outs)[:1])
+            continue
         for cmd, o in zip(c.cmds, outs):
             sx = X.parse_sx(cmd)
             if sx[0] == "x_expr_eval_rows":
